@@ -150,12 +150,13 @@ def Reported (m : Module) (n : Nat) (w : SView) : Fact → Prop
 /-- **Completeness of `G` w.r.t. the reference**: every value / presence fact of R about a view
 of the fragment is reported by `G` at every fuel that statically covers the path (`need`, the
 bound `fuelOK` is built from). -/
-theorem G_complete (m : Module) (hm : refModule m = true) (hwfm : moduleWF m = true)
-    (hlocm : reqLocalModule m = true) : ∀ n (w : SView) (fact : Fact), RFact m w fact →
-    refStruct m w.sd = true → reqLocal w.sd = true → viewWF w = true → Reported m n w fact
-  | 0, w, fact, _, _, _, _ => by cases fact <;> simp [Reported, need]
-  | n + 1, w, fact, hfact, href, hloc, hwf => by
-    have ih := G_complete m hm hwfm hlocm n
+theorem G_complete (m : Module) {P : StructDef → Prop} (hm : Closed m P) (hwfm : moduleWF m = true) :
+    ∀ n (w : SView) (fact : Fact), RFact m w fact → P w.sd → viewWF w = true → Reported m n w fact
+  | 0, w, fact, _, _, _ => by cases fact <;> simp [Reported, need]
+  | n + 1, w, fact, hfact, hP, hwf => by
+    have ih := G_complete m hm hwfm n
+    have href := hm.ref _ hP
+    have hloc := hm.loc _ hP
     -- an assignment made of facts is below the model's environment at fuel `n` on covered refs
     have hle : ∀ (ρ : Env) (refs : List (List String)),
         (∀ p v, ρ.read p = some v → RFact m w (.val p v)) →
@@ -166,9 +167,9 @@ theorem G_complete (m : Module) (hm : refModule m = true) (hwfm : moduleWF m = t
       intro ρ refs hr hh hp hl hn
       refine ⟨?_, ?_, ?_, ?_⟩
       · intro p hp' v hv
-        exact ih w _ (hr p v hv) href hloc hwf (hn p hp')
+        exact ih w _ (hr p v hv) hP hwf (hn p hp')
       · intro p hp' c hc
-        exact ih w _ (hh p c hc) href hloc hwf (hn p hp')
+        exact ih w _ (hh p c hc) hP hwf (hn p hp')
       · intro k v hv
         exact hp k v hv
       · rw [hl]; exact OLe.none _
@@ -274,7 +275,7 @@ theorem G_complete (m : Module) (hm : refModule m = true) (hwfm : moduleWF m = t
       rename_i x f t rest v
       intro hneed
       have hhas := hpresence x f true hf hpres (condRefs hf hneed)
-      have := ih w _ ht href hloc hwf (need_alias hf hk hneed)
+      have := ih w _ ht hP hwf (need_alias hf hk hneed)
       simp only [G]
       rw [step_read_alias m _ w hf hk, if_pos hhas]
       exact this
@@ -282,7 +283,7 @@ theorem G_complete (m : Module) (hm : refModule m = true) (hwfm : moduleWF m = t
       rename_i x f t y ys c
       intro hneed
       have hhas := hpresence x f true hf hpres (condRefs hf hneed)
-      have := ih w _ ht href hloc hwf (need_alias hf hk hneed)
+      have := ih w _ ht hP hwf (need_alias hf hk hneed)
       simp only [G]
       rw [step_has_alias m _ w hf hk, if_pos hhas]
       exact this
@@ -302,7 +303,7 @@ theorem G_complete (m : Module) (hm : refModule m = true) (hwfm : moduleWF m = t
         cases p with
         | nil => exact (val_path_ne_nil hsub).elim
         | cons y ys =>
-          have := ih (nullView sd') _ hsub (ref_of_find hm hfind) (reqLocal_of_find hlocm hfind)
+          have := ih (nullView sd') _ hsub (hm.step _ hP x f hf _ _ _ _ _ _ _ hk hfind)
             (viewWF_null sd') (need_struct hf hk hfind hneed)
           simp only [G]
           rw [step_read_struct m _ w hf hk, hsv]
@@ -314,7 +315,7 @@ theorem G_complete (m : Module) (hm : refModule m = true) (hwfm : moduleWF m = t
         cases p with
         | nil => exact (pres_path_ne_nil hsub).elim
         | cons y ys =>
-          have := ih (nullView sd') _ hsub (ref_of_find hm hfind) (reqLocal_of_find hlocm hfind)
+          have := ih (nullView sd') _ hsub (hm.step _ hP x f hf _ _ _ _ _ _ _ hk hfind)
             (viewWF_null sd') (need_struct hf hk hfind hneed)
           simp only [G]
           rw [step_has_struct m _ w hf hk, hsv]
@@ -369,7 +370,7 @@ theorem G_complete (m : Module) (hm : refModule m = true) (hwfm : moduleWF m = t
         | nil => exact (val_path_ne_nil hsub).elim
         | cons y ys =>
           obtain ⟨hsv, hwf'⟩ := hview _ hneed
-          have := ih _ _ hsub (ref_of_find hm hfind) (reqLocal_of_find hlocm hfind) hwf'
+          have := ih _ _ hsub (hm.step _ hP x f hf _ _ _ _ _ _ _ hk hfind) hwf'
             (need_struct hf hk hfind hneed)
           simp only [G]
           rw [step_read_struct m _ w hf hk, hsv]
@@ -382,7 +383,7 @@ theorem G_complete (m : Module) (hm : refModule m = true) (hwfm : moduleWF m = t
         | nil => exact (pres_path_ne_nil hsub).elim
         | cons y ys =>
           obtain ⟨hsv, hwf'⟩ := hview _ hneed
-          have := ih _ _ hsub (ref_of_find hm hfind) (reqLocal_of_find hlocm hfind) hwf'
+          have := ih _ _ hsub (hm.step _ hP x f hf _ _ _ _ _ _ _ hk hfind) hwf'
             (need_struct hf hk hfind hneed)
           simp only [G]
           rw [step_has_struct m _ w hf hk, hsv]
